@@ -2,7 +2,7 @@
    Model: TV.Core.State.{fs_apply, fs_hops_view, fs_target_hop, update_lowest} (state.rs) and
    Core.Strategy.publish_trace (strategy.rs). *)
 From TV Require Import Base.Result Core.Types Core.TracerState Core.Strategy Core.Builder Core.Flows Core.State
-  Proofs.StrategyInv Proofs.StateProofs.
+  Proofs.StrategyInv Proofs.StrategyProps Proofs.StateProofs Proofs.PublishWf.
 
 (* wf_round: every probe ttl in 1..254, largest_ttl in 0..254 and either 0 or at least the ttl of some probe
    of the round - the shape in which the strategy publishes rounds.
@@ -58,6 +58,28 @@ Theorem c10_strategy_largest_ttl : forall c s, Accept c -> Inv c s ->
       | None => match max_received_ttl s with None => 0 | Some m => Z.min (ttl s - 1) (m + 1) end
       end.
 Proof. exact publish_trace_ok. Qed.
+
+(* The link between the two halves: EVERY round the strategy publishes - for every builder-accepted configuration,
+   every number of iterations and every environment behaviour (clock readings, send outcomes incl. TCP re-issues,
+   deliveries) - has the shape wf_round the aggregator theorems above assume. *)
+Theorem c10_strategy_rounds_wf : forall c t0 is, Accept c -> Forall wf_round (pubs (fst (fst (run c t0 is)))).
+Proof. exact strategy_rounds_wf. Qed.
+
+(* End to end: feeding whatever the strategy publishes into a fresh hop table never faults, the table keeps its
+   window invariant, its highest ttl is the greatest path length any round reported, and querying it never fails. *)
+Theorem c10_end_to_end : forall c t0 is ms, Accept c ->
+  let rs := pubs (fst (fst (run c t0 is))) in
+  exists f', fs_run (flow_state_new ms) rs = Ok f' /\ WInv f' /\
+    fs_highest_ttl f' = fold_left (fun h r => Z.max h (rr_largest_ttl r)) rs 0 /\
+    fs_round_count f' = Z.of_nat (length rs) /\
+    exists hs, fs_hops_view f' = Ok hs.
+Proof.
+  intros c t0 is ms HA rs.
+  destruct (fs_run_window rs (flow_state_new ms) (WInv_new ms) (strategy_rounds_wf c t0 is HA))
+    as (f' & Hrun & HW & Hh & _ & Hrc & _).
+  exists f'. split; [exact Hrun|]. split; [exact HW|]. split; [exact Hh|]. split; [rewrite Hrc; reflexivity|].
+  destruct (hops_view_window f' HW) as (hs & Hv & _). exists hs. exact Hv.
+Qed.
 
 Example c10_wf_example : wf_round {| rr_probes := [Awaited {| p_sequence := 1; p_identifier := 0; p_src_port := 0; p_dest_port := 0; p_ttl := 3; p_round := 0; p_sent := 0; p_flags := 0 |}];
                                      rr_largest_ttl := 3; rr_reason := TargetFound |}.
